@@ -11,13 +11,14 @@ fn c16_substr_basic() {
     assert!(is_str(&frag_fn_substring(sv("hello"), vec![]), "hello"), "OBL C16.substr: no position");
 }
 #[kani::proof]
-#[kani::unwind(12)]
+#[kani::unwind(24)]
 fn c16_substr_negative() {
     kani::cover!(true);
     assert!(is_str(&frag_fn_substring(sv("hello"), vec![sv("-2")]), "lo"), "OBL C16.substr: negative position counts from the end");
     assert!(is_str(&frag_fn_substring(sv("hello"), vec![sv("-5")]), "hello"), "OBL C16.substr: -len is the whole string");
     assert!(is_str(&frag_fn_substring(sv("hello"), vec![sv("-3"), sv("2")]), "ll"), "OBL C16.substr: negative position with length");
     assert!(is_str(&frag_fn_substring(sv("hello"), vec![sv("9")]), ""), "OBL C16.substr: position beyond the end is empty");
+    assert!(is_str(&frag_fn_substring(sv("h\u{e9}llo w\u{f6}rld"), vec![sv("-3")]), "rld"), "OBL C16.substr: negative position counts characters, not bytes");
 }
 #[kani::proof]
 #[kani::unwind(12)]
@@ -51,6 +52,9 @@ fn c16_coalesce_concat() {
 fn c16_replace_trim() {
     kani::cover!(true);
     assert!(is_str(&frag_fn_replace(sv("aXbX"), vec![sv("X"), sv("y")]), "ayby"), "OBL C16.replace: all occurrences");
+    assert!(is_str(&frag_fn_replace(sv("abc"), vec![sv("abc"), sv("x")]), "x"), "OBL C16.replace: needle equal to the whole string");
+    assert!(is_str(&frag_fn_replace(sv("ab"), vec![sv("abc"), sv("x")]), "ab"), "OBL C16.replace: needle longer than the string");
+    assert!(is_str(&frag_fn_replace(sv("aaa"), vec![sv("aa"), sv("b")]), "ba"), "OBL C16.replace: overlapping needle, left to right");
     assert!(is_empty_value(&frag_fn_replace(sv("abc"), vec![sv("a")])), "OBL C16.replace: missing argument -> empty value, no panic");
     assert!(is_empty_value(&frag_fn_replace(sv("abc"), vec![])), "OBL C16.replace: no arguments -> empty value, no panic");
     assert!(is_str(&frag_fn_trim(sv("  a b "), vec![]), "a b"), "OBL C16.trim");
